@@ -421,6 +421,20 @@ impl<'a, D: Dataset + ?Sized> ExecState<'a, D> {
             .map(|v| self.stash.copy_variable(v))
             .collect();
         let mut bindings = self.select(inner, graph_matcher, binding)?;
+        // NB: the variables that are not projected are not in scope outside of this pattern:
+        // they must not remain (hidden) in the solutions, where ORDER BY, FILTER or BIND
+        // of an enclosing query would still see them.
+        // The variables received from the context (GRAPH ?g, EXISTS) are kept.
+        let mut keep: HashSet<Arc<str>> = variables.iter().map(|v| Arc::from(v.as_str())).collect();
+        if let Some(b) = binding {
+            keep.extend(b.v.keys().cloned());
+        }
+        bindings.iter = Box::new(bindings.iter.map(move |resb| {
+            resb.map(|mut b| {
+                b.v.retain(|k, _| keep.contains(k));
+                b
+            })
+        }));
         bindings.variables = new_variables;
         Ok(bindings)
     }
